@@ -473,7 +473,8 @@ pub fn run_c03(tier: &str, seed: u64) -> campaign::CampaignResult {
             ev.sample(s.clone(), 3);
         }
         if let Some((fs, plans, msg)) = &pp.finding {
-            let reduced = campaign::reduce_program_with(&pc.program, 30, &|q, _rules, b| run_factset(q, &b.exe, fs, plans).finding.is_some());
+            let budget = if violations >= 3 { 0 } else { 30 };
+            let reduced = campaign::reduce_program_with(&pc.program, budget, &|q, _rules, b| run_factset(q, &b.exe, fs, plans).finding.is_some());
             let src = print::plain(&reduced);
             let cc = close_cmd_for(&reduced);
             let mut scripts = vec![render(&reduced, fs, None, &cc).script.join("\n")];
